@@ -14,6 +14,8 @@ mod c02;
 #[cfg(kani)]
 mod c03;
 #[cfg(kani)]
+mod c11;
+#[cfg(kani)]
 mod c12;
 #[cfg(kani)]
 mod c13;
